@@ -39,7 +39,8 @@ func c07ProcessLevel(c *vk.Ctx) {
 		return L([]int{1, 2, 3, 9, 9}[r.Intn(5)])
 	}
 	N := 6 + r.Intn(10) // small, so that the history rotates several times during the run
-	srv, err := StartServer(c.RunDir, mk(0), ServerOpts{ReplayHistory: N})
+	// (every other batch with debug logging: what is refused, served and reported does not depend on the log level)
+	srv, err := StartServer(c.RunDir, mk(0), ServerOpts{ReplayHistory: N, Verbose: c.Batch%2 == 1})
 	if err != nil {
 		c.Violation("C07/process/server-does-not-start", err.Error())
 		if srv != nil {
@@ -70,6 +71,26 @@ func c07ProcessLevel(c *vk.Ctx) {
 		return bytes.Equal(got, payload) && len(payload) > 0, true
 	}
 	gen := 0
+	notServed := 0
+	defer func() {
+		// every refused presentation was a connection: opened, refused as a replay, reported closed once
+		var got float64
+		for dl := time.Now().Add(10 * time.Second); time.Now().Before(dl); time.Sleep(50 * time.Millisecond) {
+			m, err := srv.Metrics()
+			if err != nil {
+				continue
+			}
+			got = metricSum(m, "shadowsocks_tcp_connections_closed", map[string]string{"status": "ERR_REPLAY_CLIENT"})
+			if int(got) == notServed {
+				break
+			}
+		}
+		if srv.Alive() && int(got) != notServed && notServed > 0 {
+			c.Violation("C07/process/refused-replays-not-reported-closed", map[string]any{"refused_presentations": notServed, "closed_with_ERR_REPLAY_CLIENT": got, "verbose": c.Batch%2 == 1})
+		} else if notServed > 0 {
+			c.Count(fmt.Sprintf("process_refused_replays_reported_verbose=%v", c.Batch%2 == 1), int64(notServed))
+		}
+	}()
 	for step := 0; step < c.N(60, 200); step++ {
 		switch x := r.Intn(10); {
 		case x < 4 || len(hist) == 0: // fresh handshake on a random listener
@@ -106,6 +127,9 @@ func c07ProcessLevel(c *vk.Ctx) {
 			served, ok := present(ln, h.key, h.stream, h.payload)
 			if !ok {
 				return
+			}
+			if !served {
+				notServed++
 			}
 			hist[i].at = count
 			c.Eval(fmt.Sprintf("process|replay|within=%v|gen=%d", dist < N, gen))
